@@ -701,7 +701,6 @@ struct Exec {
 	violations: Vec<Violation>,
 	full_witnesses: std::collections::BTreeMap<String, usize>,
 	used: u64,
-	replay_mode: bool,
 }
 
 struct CaseInfo<'a> {
@@ -717,7 +716,6 @@ impl Exec {
 			violations: Vec::new(),
 			full_witnesses: Default::default(),
 			used: 0,
-			replay_mode: false,
 		}
 	}
 
@@ -909,7 +907,9 @@ impl Exec {
 		}
 		self.ev.class("gate_inputs", &(&spec.method, &spec.content_types));
 		let limit = self.srv.limit;
+		let cls = class.to_string();
 		if obs.status != expected {
+			let cls = cls.clone();
 			let (sj, oj) = (spec_json(spec), obs.to_json());
 			self.violation(
 				format!("gate-{axis}-not-{expected}/{class}"),
@@ -920,7 +920,7 @@ impl Exec {
 					if spec.content_length { "present" } else { "absent" },
 					obs.brief()
 				),
-				move || json!({"max_request_body_size": limit, "gate": {"spec": sj, "observed": oj, "expected_status": expected}}),
+				move || json!({"max_request_body_size": limit, "gate": {"spec": sj, "observed": oj, "expected_status": expected, "class": cls}}),
 			);
 		}
 		// a handler that ran although the status was the expected refusal is a defect of its own; together with
@@ -930,7 +930,7 @@ impl Exec {
 			self.violation(
 				format!("gate-handler-ran-despite-{expected}/{class}"),
 				format!("{} with content-type {:?}: answered {expected} but handler(s) ran: {:?}", spec.method, spec.content_types.iter().map(|c| lossy(c)).collect::<Vec<_>>(), obs.log),
-				move || json!({"max_request_body_size": limit, "gate": {"spec": sj, "observed": oj, "expected_status": expected}}),
+				move || json!({"max_request_body_size": limit, "gate": {"spec": sj, "observed": oj, "expected_status": expected, "class": cls}}),
 			);
 		}
 	}
@@ -1314,13 +1314,12 @@ fn main() {
 		let limit = wit["max_request_body_size"].as_u64().unwrap_or(DEFAULT_LIMIT as u64) as u32;
 		let x = block_on_virtual(async {
 			let mut x = Exec::new(limit);
-			x.replay_mode = true;
 			if let Some(g) = wit.get("gate") {
 				let spec = spec_from_json(&g["spec"]).expect("gate spec");
 				println!("replaying gate request: {}", spec_json(&spec));
 				let o = x.srv.run(&spec).await;
 				println!("observed: {}", o.to_json());
-				x.check_refused(&spec, "replayed").await;
+				x.check_refused(&spec, g["class"].as_str().unwrap_or("replayed")).await;
 				x.ev.nontrivial(&"gate-replay-a");
 				x.ev.nontrivial(&"gate-replay-b");
 			} else {
